@@ -94,9 +94,14 @@ CHECKS = {
             "param.to_local() on every rank after every step must be bitwise the serial result; empty local shards carry no state; absent DTensor gradients are absent.",
             "DTensor.from_local with explicit global shape/stride stands in for fully_shard / distribute_tensor; simulator assumptions of C06.",
             "5, 6/C08"),
+    "C18": ("exploration",
+            "differential compiled-vs-eager over Hypothesis-generated configurations and histories (eager and aot_eager backends, static/dynamic/auto shape modes), bitwise on parameters and all state after every step, with a dynamo-counter guard against vacuity",
+            "Both optimizers run the same history; any bitwise difference in parameters or state, or a difference in raising, is a violation. Cases in which torch's AOTAutograd rejects the graph (aliased mutated inputs under dynamic shapes) are excluded and counted.",
+            "torch 2.5.1 CPU; inductor is outside the property's premise; dynamo counters trusted for the 'really compiled' guard.",
+            "6/C18"),
 }
 
-PENDING_REASON = "check not built yet at this commit (work in progress; all eighteen properties are planned to be claimed, see DESIGN.md section 0)"
+PENDING_REASON = "check not built yet at this commit"
 
 
 def main() -> None:
